@@ -560,6 +560,64 @@ func caseWriteJSON(s *hlib.Suite, f frameSpec) {
 	}
 }
 
+// ---------------------------------------------------------------- transient writer failures
+
+// nthWriter rejects exactly its n-th Write call (0 bytes, error) and accepts every other one.
+type nthWriter struct {
+	n, calls int
+	rejected bool
+}
+
+func (w *nthWriter) Write(p []byte) (int, error) {
+	w.calls++
+	if w.calls == w.n {
+		w.rejected = true
+		return 0, errInjected
+	}
+	return len(p), nil
+}
+
+// caseTransient: a writer that refuses one single Write and recovers afterwards has not accepted the output
+// completely either: ToCSV / ToJSON must report an error for every position of the refused call.  Decided in Go.
+func caseTransient(s *hlib.Suite, name string, qf qframe.QFrame) {
+	for _, kind := range []string{"to_json", "to_csv"} {
+		write := func(w *nthWriter) error {
+			if kind == "to_json" {
+				return qf.ToJSON(w)
+			}
+			return qf.ToCSV(w)
+		}
+		probe := &nthWriter{n: -1}
+		if err := write(probe); err != nil {
+			panic(err)
+		}
+		total := probe.calls
+		swallowed := []int{}
+		for n := 1; n <= total; n++ {
+			w := &nthWriter{n: n}
+			var err error
+			panicked, _ := hlib.Recover(func() { err = write(w) })
+			s.Count("injections")
+			s.Count("injections/transient_" + kind)
+			if panicked || (w.rejected && err == nil) {
+				swallowed = append(swallowed, n)
+			}
+		}
+		if len(swallowed) > 0 {
+			desc := map[string]interface{}{"kind": "transient_" + kind, "frame": name, "write_calls": total, "refused_calls_not_reported": swallowed[:minI(len(swallowed), 20)],
+				"props": []string{"C15"}}
+			s.Fail(s.NextID(), fmt.Sprintf("%s reports success although the writer refused its Write call number %d of %d", kind, swallowed[0], total), desc, "")
+		}
+	}
+}
+
+func minI(a, b int) int {
+	if a < b {
+		return a
+	}
+	return b
+}
+
 // ---------------------------------------------------------------- SQL
 
 type rsSpec struct {
@@ -759,6 +817,20 @@ func main() {
 			caseWriteJSON(s, f)
 			caseSQLWrite(s, f)
 		}
+	}
+	// transient refusals (Go-side): small frames and one frame whose JSON / CSV output passes 32 KiB
+	for _, f := range fs {
+		if !f.big {
+			caseTransient(s, f.name, f.qf)
+		}
+	}
+	{
+		n := 2500
+		ids, strs := make([]int, n), make([]string, n)
+		for i := range ids {
+			ids[i], strs[i] = 1000000+i, fmt.Sprintf("row-%d", i)
+		}
+		caseTransient(s, "2500 rows", qframe.New(map[string]interface{}{"I": ids, "S": strs}))
 	}
 	rss := resultSets(r)
 	for i := 0; i < extra/8; i++ {
